@@ -116,6 +116,7 @@ FillIn(U, t, v) ==
             IN V("obj", [x \in {fds[i].n : i \in given \cup dflt} |->
                            LET fd == CHOOSE d \in Range(fds) : d.n = x
                            IN IF x \in DOMAIN v.v THEN FillIn(U, fd.type, v.v[x]) ELSE FillIn(U, fd.type, fd.def)])
+       ELSE IF t.n = "ID" /\ v.k = "int" THEN StrV(ToString(v.v))        \* a number written for an ID is that ID as a string
        ELSE v
 \* (an argument the field does not declare is reported as such; it is kept as written)
 ArgMapFor(C, f, fd) ==
